@@ -9,7 +9,9 @@ import (
 	"io"
 	"net/http"
 	"net/url"
+	"reflect"
 	"sort"
+	"strings"
 	"testing/iotest"
 
 	"github.com/WICG/webpackage/go/bundle"
@@ -374,6 +376,101 @@ func run(r *mon.Run) {
 			r.Sample("bundle", map[string]any{"case": i, "shape": d, "bytes": len(w1), "some_urls": urls})
 		}
 
+		// members of one variant set that spell the Variants value differently (the values of one axis in another order;
+		// blanks; quoting): the writer may refuse the set - but IF it writes it, nothing is lost or duplicated on reading
+		// and re-serializing reaches a fixpoint, as for any other bundle it agrees to write
+		for si, vs := range sets {
+			if len(vs.Exchanges) < 2 || o.MultiKey {
+				continue
+			}
+			for _, respell := range []string{"axis-values-reversed", "no-blanks", "all-quoted"} {
+				alt := ""
+				switch respell {
+				case "axis-values-reversed":
+					var parts []string
+					done := false
+					for a, vals := range vs.Axes {
+						vv := append([]string{}, vals...)
+						if !done && len(vv) >= 2 {
+							for x, y := 0, len(vv)-1; x < y; x, y = x+1, y-1 {
+								vv[x], vv[y] = vv[y], vv[x]
+							}
+							done = true
+						}
+						parts = append(parts, []string{"Accept-Language", "Accept-Encoding", "Accept"}[a]+";"+strings.Join(vv, ";"))
+					}
+					if !done {
+						continue
+					}
+					alt = strings.Join(parts, ", ")
+				case "no-blanks":
+					alt = strings.ReplaceAll(vs.Variants, ", ", ",")
+				case "all-quoted":
+					var parts []string
+					for a, vals := range vs.Axes {
+						p := []string{"Accept-Language", "Accept-Encoding", "Accept"}[a]
+						for _, v := range vals {
+							p += `;"` + v + `"`
+						}
+						parts = append(parts, p)
+					}
+					alt = strings.Join(parts, ", ")
+				}
+				nb := *b
+				nb.Exchanges = nil
+				victim := vs.Exchanges[(i+si)%len(vs.Exchanges)]
+				for _, e := range b.Exchanges {
+					if e == victim {
+						dup := *e
+						dup.Response.Header = http.Header{}
+						for k, v := range e.Response.Header {
+							dup.Response.Header[k] = v
+						}
+						dup.Response.Header["Variants"] = []string{alt}
+						e = &dup
+					}
+					nb.Exchanges = append(nb.Exchanges, e)
+				}
+				wantAll := groupImpl(&nb)
+				multiset := func(g map[string][]flatEx) map[string]int {
+					m := map[string]int{}
+					for u, fs := range g {
+						for _, f := range fs {
+							m[fmt.Sprintf("%s|%d|%v|%x", u, f.Status, f.Headers, f.Body)]++
+						}
+					}
+					return m
+				}
+				vkey := fmt.Sprintf("%s:variants-respelled-%s", key, respell)
+				wv1, err, panicked := write(r, fmt.Sprintf("write-respelled/%d", i), &nb)
+				if err != nil && !panicked {
+					r.Eval("respelled-variants-refused")
+					r.Distinct("variants-respelled|" + respell + "|refused")
+					continue
+				}
+				bad := ""
+				if panicked {
+					bad = "the writer panicked"
+				} else if rv1, err := read(r, fmt.Sprintf("read-respelled/%d", i), wv1); err != nil {
+					bad = fmt.Sprintf("the reader rejects what the writer produced: %v", err)
+				} else if got := multiset(groupImpl(rv1)); !reflect.DeepEqual(got, multiset(wantAll)) {
+					bad = "the exchanges read back are not the ones written (something dropped, duplicated or altered)"
+				} else if wv2, err, _ := write(r, fmt.Sprintf("write2-respelled/%d", i), rv1); err != nil {
+					bad = fmt.Sprintf("what was read back cannot be written again: %v", err)
+				} else if rv2, err := read(r, fmt.Sprintf("read2-respelled/%d", i), wv2); err != nil {
+					bad = fmt.Sprintf("second generation unreadable: %v", err)
+				} else if wv3, err, _ := write(r, fmt.Sprintf("write3-respelled/%d", i), rv2); err != nil || !bytes.Equal(wv2, wv3) {
+					bad = fmt.Sprintf("no fixpoint: Write(Read(W2)) != W2 (err=%v)", err)
+				}
+				if bad != "" {
+					r.Eval("RESPELLED-VARIANTS-MISHANDLED")
+					r.Violation(vkey, fmt.Sprintf("bundle #%d: a variant set whose members spell the Variants value differently (%q and %q) was written without complaint, but %s", i, vs.Variants, alt, bad), det)
+				} else {
+					r.Eval("respelled-variants-written-and-stable")
+				}
+				r.Distinct("variants-respelled|" + respell + "|written")
+			}
+		}
 		// incomplete / overlapping variant coverage must be refused at write time
 		for _, vs := range sets {
 			for _, kind := range []string{"missing", "overlapping", "overlapping-last", "overlapping-first"} {
